@@ -200,3 +200,6 @@ Fixpoint list_index_from (l : list Z) (v : Z) (i : Z) : option Z :=
   | x :: r => if Z.eqb x v then Some i else list_index_from r v (i + 1)
   end.
 Definition list_index (l : list Z) (v : Z) : option Z := list_index_from l v 0.
+
+(* torch.numel of a tensor modelled by its shape *)
+Definition py_numel (shape : list Z) : Z := fold_left Z.mul shape 1.
